@@ -399,7 +399,7 @@ pub fn run_terminal(sim: &mut Sim) -> Outcome {
     let flag = WakeFlag::new(false);
     RT.with(|r| *r.tick_waker.borrow_mut() = Some(flag.waker()));
     let built = (shape.build)(&g);
-    let mut ds = DynShape(built.pull);
+    let mut ds = DynShape(built.pull, 0);
     let got: RefCell<Option<Vec<u64>>> = RefCell::new(None);
     let log = RefCell::new(SinkLog::default());
     let first_hint = ds.size_hint();
@@ -464,6 +464,8 @@ pub fn run_terminal(sim: &mut Sim) -> Outcome {
     if lost {
         v = Some(tviol("lost_wakeup", "executor quiescent: the terminal future returned Pending with no wake-up registered or scheduled".into()));
     } else if discarded {
+    } else if RT.with(|r| r.cap_hit.get()) {
+        v = Some(tviol("livelock", format!("the pull neither ended nor pended within {DYN_PULL_CAP} pulls although every source is finite")));
     } else if poison != 0 {
         v = Some(tviol("repull_after_end", format!("an unfused source was pulled after its end (mask {poison:#x})")));
     } else if fut_repoll != 0 {
